@@ -13,6 +13,16 @@ namespace nano
 template <template <class tscalar, size_t> class tstorage, class tscalar, size_t trank>
 std::ostream& write(std::ostream& stream, const tensor_t<tstorage, tscalar, trank>& tensor)
 {
+    // NB: the dimensions are stored as 32-bit integers!
+    for (size_t i = 0; i < trank; ++i)
+    {
+        if (tensor.dims()[i] > static_cast<tensor_size_t>(std::numeric_limits<int32_t>::max()))
+        {
+            stream.setstate(std::ios_base::failbit);
+            return stream;
+        }
+    }
+
     if (!::nano::write(stream, detail::hash_version()) ||                     // version
         !::nano::write(stream, static_cast<uint32_t>(trank)) ||               // rank
         !::nano::write_cast<int32_t>(stream, tensor.dims().data(), trank) ||  // dimensions
